@@ -10,6 +10,7 @@
 //
 //	cfg := vtraffic.DefaultConfig()            // bounds of the generated space
 //	s   := vtraffic.Gen(cfg).Draw(rt, "traffic") // *Scenario (all choices drawn from rapid)
+//	s   := vtraffic.GenFromSeed(vtraffic.LargeConfig(n)).Draw(rt, "traffic") // real-size: one drawn seed, expanded
 //	s.Conversations                            // ground truth, one entry per TCP connection / UDP flow
 //	s.Captures[i].Name, .Packets               // the i-th capture file, ordered by first packet time; the files are
 //	                                           // either consecutive pieces of the packet sequence or (sensor layout,
